@@ -3,6 +3,7 @@
 package keeper
 
 import (
+	"context"
 	sdk "github.com/cosmos/cosmos-sdk/types"
 	codectypes "github.com/cosmos/cosmos-sdk/codec/types"
 	"time"
@@ -48,3 +49,4 @@ func verifEnvReplay()                       { panic("verif intrinsic") }
 func verifEnvEnd()                          { panic("verif intrinsic") }
 func verifRepeat() int                      { panic("verif intrinsic") }
 func verifStubValue[T any](name string) (T, bool) { panic("verif intrinsic") }
+func verifOnRoute(msg sdk.Msg, h func(ctx context.Context, msg sdk.Msg) (*sdk.Result, error)) { panic("verif intrinsic") }
